@@ -8,6 +8,7 @@ import Hv.Driver.Qcow2
 import Hv.Driver.Vmtar
 import Hv.Driver.Misc
 import Hv.Driver.HyperV
+import Hv.Driver.Vmx
 open Hv Hv.Driver
 
 def dispatch (st : St) (toks : List String) : String :=
@@ -25,6 +26,7 @@ def dispatch (st : St) (toks : List String) : String :=
     else if cmd.startsWith "vmtar." then vmtarCmd st toks
     else if cmd.startsWith "fx." || cmd.startsWith "xml." then miscCmd st toks
     else if cmd.startsWith "hyperv." then hypervCmd st toks
+    else if cmd.startsWith "vmx." then vmxCmd st toks
     else "bad-cmd"
 
 partial def loop (h : IO.FS.Stream) (out : IO.FS.Stream) (st : St) : IO Unit := do
